@@ -37,12 +37,13 @@ const (
 	evNextPanic  = "next-panic"
 	evHEnter     = "handler-enter" // the pipeline's completeHandle/errHandle of the stage was invoked (Info = complete|err)
 	evHExit      = "handler-exit"
-	evHUnwind    = "handler-unwind" // a panic unwound the handler (nested stage panicked)
-	evHook       = "complete-hook"  // Stage.Complete() called by the state machine
-	evCallback   = "callback"       // the completion callback of the pipeline
-	evMainReturn = "main-return"    // pipeline.Execute returned
-	evMainPanic  = "main-panic"     // pipeline.Execute panicked (must never happen)
-	evLost       = "runner-lost"    // harness: an async stage was handed to its pool, the pool drained a later sentinel task, the stage never ran
+	evHUnwind    = "handler-unwind"   // a panic unwound the handler (nested stage panicked)
+	evHook       = "complete-hook"    // Stage.Complete() called by the state machine
+	evCallback   = "callback"         // the completion callback of the pipeline
+	evMainReturn = "main-return"      // pipeline.Execute returned
+	evMainPanic  = "main-panic"       // pipeline.Execute panicked (must never happen)
+	evAbandoned  = "runner-abandoned" // harness: the pool's counters say the stage's task was consumed, its handlers were never called
+	evLost       = "runner-lost"      // harness: an async stage was handed to its pool, the pool drained a later sentinel task, the stage never ran
 )
 
 // event is one entry of the trace; Seq is the logical clock.
@@ -109,6 +110,9 @@ type caseRun struct {
 	started int // runners started (main goroutine + async stages handed to a pool)
 	done    int // runners done
 	parked  map[int]chan struct{}
+	parkedG map[int]int64 // goroutine of each parked operator
+	gOwner  map[int64]int // pool goroutine -> async stage whose task runs on it (-1: the goroutine that called pipeline.Execute)
+	mainEnd bool
 	runDone map[int]bool // async stage id -> runner counted as done
 	hstack  map[int64][]int
 	nCb     int
@@ -135,6 +139,12 @@ func (c *caseRun) rec(kind string, st, op int, err error, info string) int {
 }
 
 func (c *caseRun) recLocked(kind string, st, op int, err error, info string, g int64) int {
+	if kind == evOpStart || kind == evHEnter {
+		// a pool worker runs one task after the other: the goroutine belongs to the pooled stage whose events it shows
+		if h := c.stages[st]; h != nil && h.spec.Async {
+			c.gOwner[g] = st
+		}
+	}
 	e := event{Seq: len(c.ev), Kind: kind, Stage: st, Op: op, G: g, Info: info}
 	if err != nil {
 		e.Err = err.Error()
@@ -183,6 +193,7 @@ func (o *hOp) Execute() (err error) {
 		g := goid()
 		c.mu.Lock()
 		c.parked[o.st] = ch
+		c.parkedG[o.st] = g
 		c.recLocked(evOpPark, o.st, o.idx, nil, "", g)
 		c.mu.Unlock()
 		c.wake()
@@ -421,6 +432,7 @@ type caseOutcome struct {
 	PoolInfo  []string `json:"pool_info,omitempty"`
 	Watchdog  string   `json:"watchdog,omitempty"` // harness watchdog fired: the case is inconclusive
 	Lost      []int    `json:"lost,omitempty"`
+	Abandoned []int    `json:"abandoned,omitempty"`
 	NAsync    int      `json:"-"`
 }
 
@@ -433,7 +445,7 @@ var statSeq struct {
 func runCase(spec *treeSpec, opts runOpts) *caseOutcome {
 	c := &caseRun{
 		spec: spec, opts: opts, notify: make(chan struct{}, 1),
-		parked: map[int]chan struct{}{}, runDone: map[int]bool{}, hstack: map[int64][]int{},
+		parked: map[int]chan struct{}{}, parkedG: map[int]int64{}, gOwner: map[int64]int{}, runDone: map[int]bool{}, hstack: map[int64][]int{},
 		delayNs: map[int]int64{}, stages: map[int]*hStage{},
 	}
 	nPools := 4
@@ -492,12 +504,16 @@ func runCase(spec *treeSpec, opts runOpts) *caseOutcome {
 	c.started++ // main runner
 	c.mu.Unlock()
 	go func() {
+		c.mu.Lock()
+		c.gOwner[goid()] = -1
+		c.mu.Unlock()
 		defer func() {
 			if r := recover(); r != nil {
 				c.rec(evMainPanic, -1, 0, fmt.Errorf("%v", r), "")
 			}
 			c.mu.Lock()
 			c.done++
+			c.mainEnd = true
 			c.mu.Unlock()
 			c.wake()
 		}()
@@ -508,6 +524,7 @@ func runCase(spec *treeSpec, opts runOpts) *caseOutcome {
 	// driver
 	lastLen := -1
 	stallSince := time.Now()
+	frozenTicks := 0
 	for {
 		c.mu.Lock()
 		running := c.started - c.done - len(c.parked)
@@ -541,6 +558,7 @@ func runCase(spec *treeSpec, opts runOpts) *caseOutcome {
 			id := ids[k]
 			ch := c.parked[id]
 			delete(c.parked, id)
+			delete(c.parkedG, id)
 			c.recLocked(evOpRelease, id, 0, nil, "", 0)
 			c.mu.Unlock()
 			close(ch)
@@ -561,6 +579,20 @@ func runCase(spec *treeSpec, opts runOpts) *caseOutcome {
 		// an async stage that was handed over and never showed any activity while its pool counts a rejection is lost
 		if c.markRejectedLost(out) {
 			continue
+		}
+		// Frozen: the caller's goroutine is back (or parked), and by the pools' own counters every task handed to them
+		// was consumed except the ones whose worker waits at a gate.  Then no code of this case is running, and a pooled
+		// stage that is neither done nor parked was finished by its pool without a word to its handlers.  The pool
+		// counts a panicking task before it calls the panic handler, so the condition must survive a few ticks.
+		if c.frozen() && curLen == lastLen {
+			frozenTicks++
+			if frozenTicks >= 3 {
+				c.abandonDead(out)
+				frozenTicks = 0
+				continue
+			}
+		} else {
+			frozenTicks = 0
 		}
 		if time.Since(stallSince) > caseWatchdog {
 			c.mu.Lock()
@@ -690,6 +722,58 @@ func (c *caseRun) poolCountersIdle(out *caseOutcome) bool {
 		time.Sleep(2 * time.Millisecond)
 	}
 	return idle
+}
+
+// frozen reports whether nothing of this case can be executing: see the driver loop.
+func (c *caseRun) frozen() bool {
+	c.mu.Lock()
+	defer c.mu.Unlock()
+	mainParked := false
+	poolParked := 0
+	for _, g := range c.parkedG {
+		if c.gOwner[g] == -1 {
+			mainParked = true
+		} else {
+			poolParked++
+		}
+	}
+	if !c.mainEnd && !mainParked {
+		return false
+	}
+	live := 0
+	for i, st := range c.stats {
+		live += c.subm[i] - int(st.TasksConsumed.Get()+st.TasksPanic.Get()+st.TasksRejected.Get()-c.base[i])
+	}
+	return live == poolParked
+}
+
+// abandonDead counts the runners of pooled stages that are neither done nor the owner of a parked operator as done.
+func (c *caseRun) abandonDead(out *caseOutcome) {
+	c.mu.Lock()
+	defer c.mu.Unlock()
+	owners := map[int]bool{}
+	for _, g := range c.parkedG {
+		owners[c.gOwner[g]] = true
+	}
+	started := map[int]bool{}
+	for _, e := range c.ev {
+		if e.Kind == evExecEnter && e.Info == "async" {
+			started[e.Stage] = true
+		}
+	}
+	var ids []int
+	for id := range started {
+		if !c.runDone[id] && !owners[id] {
+			ids = append(ids, id)
+		}
+	}
+	sort.Ints(ids)
+	for _, id := range ids {
+		c.recLocked(evAbandoned, id, 0, nil, "", 0)
+		c.runDone[id] = true
+		c.done++
+		out.Abandoned = append(out.Abandoned, id)
+	}
 }
 
 // markRejectedLost: when the pools count exactly as many rejected tasks as there are async stages that were handed
